@@ -196,6 +196,14 @@ class NPProxy:
     def sum(self, a, axis=None, **kw):
         if axis is None and has_sym(a):
             return fold_sum(self._r.asarray(a, dtype=object).ravel())
+        if axis == 0 and has_sym(a):
+            arr = self._r.asarray(a, dtype=object)
+            if arr.ndim == 1:
+                return fold_sum(arr)
+            out = arr[0]
+            for row in arr[1:]:
+                out = out + row
+            return out
         return self._r.sum(a, axis=axis, **kw)
 
     def mean(self, a, axis=None, **kw):
